@@ -114,6 +114,8 @@ def relations(ctx, per_spec):
             n_lab = 0 if r0 < 0.2 else (1 if r0 < 0.3 else rng.randint(2, n - 3))
             if forced and n_lab < 2:
                 n_lab = 2
+            if k_rep == 1:
+                n_lab = 0          # the second repetition is a cold start (fallback branches of the strategies; seed C08b)
             ctx.count("cold_start" if n_lab == 0 else ("single_label" if n_lab == 1 else "warm"))
             data = make_data(nrs, n, spec.kind, flavour, n_labeled=n_lab, classes=spec.classes or (0, 1, 2))
             cold = "/cold-start" if n_lab == 0 else ""   # precondition class of a finding
@@ -311,7 +313,7 @@ def correspond(ctx):
     weighted_duplicates(ctx, 24 if not ctx.thorough else 200)
     us_cases(ctx, 150 if not ctx.thorough else 1500)
     candmap_cases(ctx, 400 if not ctx.thorough else 4000)
-    relations(ctx, 2 if not ctx.thorough else 12)
+    relations(ctx, 3 if not ctx.thorough else 12)
 
 
 def search(ctx):
